@@ -41,6 +41,8 @@ ASSUMPTIONS = ["bit-identical comparison (np.array_equal); the interpolator is c
 CONFIGS = [
     {"table": {"kind": "shipped", "name": "pvt_gas"}, "nx": 8, "p_i": 8000.0, "p_f": 2000.0, "A": ("quadratic", 12, 4.0), "B": ("uniform", 12, 1.5), "C": ("quadratic", 7, 9.0)},
     {"table": {"kind": "shipped", "name": "haynesville"}, "nx": 5, "p_i": 9000.0, "p_f": 8500.0, "A": ("geometric", 9, 2.0), "B": ("sorted-random", 9, 6.0), "C": ("uniform", 15, 0.5)},
+    # the smallest mesh the flux stencil admits (its three columns ARE the whole field) with very short grids
+    {"table": {"kind": "shipped", "name": "pvt_gas"}, "nx": 3, "p_i": 8000.0, "p_f": 3000.0, "A": ("quadratic", 4, 2.0), "B": ("uniform", 4, 1.0), "C": ("quadratic", 2, 5.0)},
 ]
 
 
@@ -61,6 +63,11 @@ def generate(ck):
                     descs.append({"cls": cls, "cfg": cfg, "seq": list(seq)})
                     if cfg == 0 and 2 <= n <= L - 1 and seq[0].startswith("sim") and seq[-1] in ("rf", "rfd", "interp"):
                         descs.append({"cls": cls, "cfg": cfg, "seq": list(seq), "tight": True, "nt_scale": 1})
+    for cls in ("ideal", "single"):
+        for n in range(1, 4 if ck.tier == "quick" else 5):
+            for seq in itertools.product(OPS, repeat=n):
+                if seq[0].startswith("sim"):
+                    descs.append({"cls": cls, "cfg": 2, "seq": list(seq)})
     # the two-phase class (a SinglePhaseReservoir subclass with its own simulate signature) on a
     # from_table fluid: same alphabet, one level shorter
     for n in range(1, L):
